@@ -295,6 +295,7 @@ fn run_root(args: &Args, b: &Batch, ri: usize, st: &mut Stats, skip_cases: u64) 
     let cell = RefCell::new((std::mem::take(st), false));
     let cs = Case { b, ri };
     let case_no = std::cell::Cell::new(0u64);
+    let last_fail: RefCell<Option<(MFail, Value)>> = RefCell::new(None);
     let res = runner.run(&strat, |(vals, ms)| {
         let k = case_no.get();
         case_no.set(k + 1);
@@ -318,19 +319,34 @@ fn run_root(args: &Args, b: &Batch, ri: usize, st: &mut Stats, skip_cases: u64) 
         }
         match r {
             Ok(()) => Ok(()),
-            Err((f, _)) => {
+            Err((f, info)) => {
                 g.1 = true;
-                Err(TestCaseError::fail(f.check))
+                let name = f.check.clone();
+                // the most recent failing execution is the one proptest reports at the end of
+                // shrinking; its bytes are kept (values containing hash containers do not
+                // re-encode to the same bytes, so re-deriving them would not reproduce)
+                *last_fail.borrow_mut() = Some((f, info));
+                Err(TestCaseError::fail(name))
             }
         }
     });
     let (mut s, _) = cell.into_inner();
     match res {
         Ok(()) => {}
-        Err(TestError::Fail(_, (vals, ms))) => {
-            let mut scratch = Stats::default();
-            match one_case(&cs, &vals, &ms, &mut scratch, false) {
-                Err((f, info)) => {
+        Err(TestError::Fail(_, (_vals, _ms))) => {
+            // confirm on the exact bytes, outside proptest
+            let confirmed = last_fail.borrow_mut().take().and_then(|(f, info)| {
+                let input = unhex(f.extra["input"].as_str().unwrap_or(""));
+                let c = parse_container(f.extra["container"].as_str().unwrap_or(""));
+                let p = parse_path(f.extra["path"].as_str().unwrap_or(""));
+                let v = f.extra["version"].as_u64().unwrap_or(b.uni.version as u64) as u32;
+                match judge(b, ri, c, p, v, &input) {
+                    Err(f2) => Some((f2, info)),
+                    Ok(_) => None,
+                }
+            });
+            match confirmed.ok_or(()) {
+                Ok((f, info)) => {
                     let mut signature = BTreeMap::new();
                     signature.insert("check".to_string(), f.check.clone());
                     for k in ["container", "path", "panic_kind", "invalid_kind", "via_bulk_copy"] {
@@ -350,7 +366,7 @@ fn run_root(args: &Args, b: &Batch, ri: usize, st: &mut Stats, skip_cases: u64) 
                     });
                     s.violations.push(Violation { signature, replay });
                 }
-                Ok(()) => s.inconclusive.push(format!("failure for root {} did not reproduce", ri)),
+                Err(()) => s.inconclusive.push(format!("failure for root {} did not reproduce on the recorded bytes", ri)),
             }
         }
         Err(TestError::Abort(r)) => s.inconclusive.push(format!("proptest abort: {}", r)),
